@@ -379,3 +379,14 @@ func (m *Model) VersionCandidates(from int64) []int64 {
 	sort.Slice(out, func(i, j int) bool { return out[i] < out[j] })
 	return out
 }
+
+// VersionsDesc: the retained versions, newest first. The oracles visit versions in this order: the newest
+// version is the one most likely to be held in some "most recently used" slot of the implementation, and
+// asking for an older version first would evict exactly the state the oracle should observe.
+func (m *Model) VersionsDesc() []int64 {
+	vs := m.Versions()
+	for i, j := 0, len(vs)-1; i < j; i, j = i+1, j-1 {
+		vs[i], vs[j] = vs[j], vs[i]
+	}
+	return vs
+}
